@@ -584,22 +584,30 @@ def run_op(op, cls, s, a):
 
 
 def _value_obs(s, cls):
+    """whole-value observations; an exception is an observation too (never a harness failure)"""
     x = mk(cls, s)
     n = len(s)
-    o = {"len": len(x), "bin": x.bin if n else "", "bytes": x.tobytes().hex(), "eq": x == mk("Bits", s)}
+
+    def g(thunk):
+        try:
+            return thunk()
+        except Exception as e:                                  # noqa: BLE001
+            return "EXC:" + type(e).__name__
+    o = {"len": g(lambda: len(x)), "bin": g(lambda: x.bin if n else ""), "bytes": g(lambda: x.tobytes().hex()),
+         "eq": g(lambda: x == mk("Bits", s))}
     if n:
-        o["uint"], o["int"] = x.uint, x.int
+        o["uint"], o["int"] = g(lambda: x.uint), g(lambda: x.int)
         if n % 4 == 0:
-            o["hex"] = x.hex
+            o["hex"] = g(lambda: x.hex)
         if n % 3 == 0:
-            o["oct"] = x.oct
+            o["oct"] = g(lambda: x.oct)
         if n % 8 == 0:
-            o["uintle"], o["intbe"] = x.uintle, x.intbe
+            o["uintle"], o["intbe"] = g(lambda: x.uintle), g(lambda: x.intbe)
         if n in (16, 32, 64):
-            o["float"] = struct.pack(">d", x.float).hex()
+            o["float"] = g(lambda: struct.pack(">d", x.float).hex())
     if cls in ("Bits", "ConstBitStream"):
-        o["hash"] = hash(x)
-    o["count"] = x.count(1)
+        o["hash"] = g(lambda: hash(x))
+    o["count"] = g(lambda: x.count(1))
     return o
 
 
@@ -687,7 +695,7 @@ def execute(line):
         # behavioural check of the rebinding: after on/off every attribute is what it was at import (msb0) time
         objs = {"Bits": bitstring.bits.Bits, "BitArray": bitstring.bitarray_.BitArray, "BitStore": bitstring.bitstore.BitStore}
         keys = sorted({e.split("=")[0] for v in t.values() for e in v})
-        snap = lambda: [getattr(objs[k.split(".")[0]], k.split(".")[1]) for k in keys]
+        snap = lambda: [getattr(objs[k.split(".")[0]], k.split(".")[1], None) for k in keys]
         with options(lsb0=False):
             before = snap()
             bitstring.options.lsb0 = True
@@ -722,6 +730,7 @@ def execute(line):
         extra["before"], extra["during"], extra["after"] = before, during, after
         d = during
         out = f"ok {d['len']} {d.get('uint', '-')} {d.get('int', '-')} {d['bin'] or '-'}"
+        # long hashes are sampled from both ends: they must not depend on the mode either (2000-bit threshold)
         return out, extra
     with options(lsb0=True):
         out = run_op(op, cls, s, a)
@@ -1052,6 +1061,13 @@ def gen_bytes(rng, tier):
         yield L("value", _acls(rng), s)
 
 
+def gen_values(rng, tier):
+    """whole-value interpretations, ==, hash (sampled from both ends above 2000 bits), len in both modes"""
+    for n in [1, 3, 4, 8, 12, 16, 24, 32, 64, 1599, 1600, 1601, 1999, 2000, 2001, 2400, 3601]:
+        for cls in (["Bits", "ConstBitStream"] if n > 64 else CLASS_NAMES):
+            yield L("value", cls, rand_bits(rng, n))
+
+
 def gen_streams(rng, tier):
     big = tier != "quick"
     kinds = "nbui"
@@ -1241,6 +1257,7 @@ def gen(rng, tier):
     yield from gen_search(rng, tier)
     yield from gen_bytes(rng, tier)
     yield from gen_streams(rng, tier)
+    yield from gen_values(rng, tier)
     yield from gen_seq(rng, tier)
     yield from gen_random(rng, tier)
     yield from gen_chunks(rng, tier)
